@@ -127,6 +127,24 @@ def set_literal(n: int, e0: int, e1: int, e2: int, trailing_comma: bool, spaced:
     return fin(before == after)
 
 
+def walrus_if(test: int, value: int, body: int, tail: int, wrap: int) -> bool:
+    """use-walrus-if (complete real pipeline) on `x = g(); if <test on x>: ... else: ...` with a symbolic test form,
+    runtime value of g(), body, and continuation (x unused afterwards / read at the same level / read only from a
+    nested function / read only from a comprehension / re-assigned), at module level, inside a function, or inside a
+    loop whose body reads x above the assignment: the rewritten module computes the same values and raises the same
+    exception type.
+    post: _
+    """
+    from harness import walrus
+    from vlib.core import fin
+
+    src = walrus.build(test, value, body, tail, wrap)
+    before, after, _out = walrus.run(src)
+    if before[0] != "val":
+        return fin(True)
+    return fin(before == after)
+
+
 def _load_registry():
     from codemodder.registry import load_registered_codemods
 
@@ -140,6 +158,7 @@ def warmup():
     unnecessary_fstring(2, 0, 1, 0, 0, 0)
     set_literal(2, 0, 2, 0, True, False)
     use_generator_call(2, 1, False, False, False)
+    walrus_if(0, 0, 1, 2, 0)
 
 
 SPEC = {
@@ -151,7 +170,7 @@ SPEC = {
         "InvertedBooleanCheckTransformer.leave_UnaryOperation / report_new_comparison / _invert_comparisons",
         "CombineCallsBaseCodemod.leave_BooleanOperation / matches_* / combine_*",
         "UseGenerator.leave_Call (E1 kernel over a symbolic call shape)",
-        "the complete real pipelines of remove-unnecessary-f-str and use-set-literal on selector-built expressions (value comparison by exec)",
+        "the complete real pipelines of remove-unnecessary-f-str, use-set-literal and use-walrus-if on selector-built programs (value comparison by exec)",
     ],
     "bounds": {
         "quick": "grammar `r = <expr>`: not-prefixed comparison chains of 1-2 operators out of == != < > <= >= is 'is not' in 'not in' over int names, a bool name, True, None, 0 and a container, bare / parenthesised / inside and-or contexts; and/or trees of depth <= 1 and all 3-atom shapes (with and without parentheses) over 5 of 8 startswith/endswith atoms and 5 of 7 isinstance/issubclass atoms.  Value sorts: unbounded ints, bools, None; predicates uninterpreted; per element name a 'denotes a 2-tuple' flag",
@@ -164,12 +183,13 @@ SPEC = {
         "the evaluator is validated against exec() on sampled programs and every sat model is replayed by exec",
     ],
     "stubs": ["FileContext with a non-existent path (nothing is written)"],
-    "outside": ["walrus-if, with-wrapping (fix-file-resource-leak), import codemods (order-imports, unused-imports), lazy logging, sql parameterization: statement-level, scope or call-effect semantics beyond the evaluator (the seeded changes C08_a and C02_a live there and are NOT caught)"],
+    "outside": ["with-wrapping (fix-file-resource-leak), import codemods (order-imports, unused-imports), lazy logging, sql parameterization: statement-level, scope or call-effect semantics beyond the evaluator (the seeded changes C08_a and C02_a live there and are NOT caught)"],
     "rule": "programs = grammar programs pushed through the real pipeline; distinct_nontrivial = programs the codemod changed; disagreements_checked = z3 equivalence queries on changed programs",
     "drivers": [translation_validation, planted],
     "xh": [
         __import__("vlib.main", fromlist=["Xh"]).Xh("use_generator_call", 200, 400),
         __import__("vlib.main", fromlist=["Xh"]).Xh("unnecessary_fstring", 300, 600),
         __import__("vlib.main", fromlist=["Xh"]).Xh("set_literal", 300, 600),
+        __import__("vlib.main", fromlist=["Xh"]).Xh("walrus_if", 400, 800),
     ],
 }
